@@ -78,8 +78,8 @@ func TestVerifC19Provider(t *testing.T) {
 			out.Write(map[string]interface{}{"ev": "refuse"})
 			continue
 		}
-		obs, where := vC19Observe(reqs, toks)
-		out.Write(map[string]interface{}{"ev": "forward", "obs": obs, "where": where, "nreq": len(reqs)})
+		obs := vC19Observe(reqs, toks)
+		out.Write(map[string]interface{}{"ev": "forward", "obs": obs, "nreq": len(reqs)})
 	}
 	fmt.Println("VERIF-DRIVER-DONE scenarios:", len(scns))
 }
